@@ -140,9 +140,10 @@ def run(tier, replay=None):
         raise common.Broken("self-test: unlocked Framing should violate WellFramed")
     run_.add_tlc(r)
 
-    plans = [("stdio", 2, 2, None), ("stdio", 3, 2, None), ("get", 2, 3, None)]
+    # getres: the listening stream is opened with a Last-Event-ID; the server's resumption notice is frame f1 of the schedule
+    plans = [("stdio", 2, 2, None), ("stdio", 3, 2, None), ("get", 2, 3, None), ("getres", 2, 3, None)]
     if tier == "thorough":
-        plans += [("stdio", 4, 2, 400), ("get", 3, 3, 300)]
+        plans += [("stdio", 4, 2, 400), ("get", 3, 3, 300), ("getres", 3, 3, 300)]
     jobs = []
     exhaustive = True
     for stream, nf, np_, limit in plans:
